@@ -26,8 +26,7 @@ META = dict(
     bounds=dict(quick="1 annotator x <= 2 units or 2 annotators x <= 1 unit per draw, <= 2 redraws of a duration, 2 categories; "
                       "custom mode (all 6 parameters symbolic) and measured mode on references (1,1),(2,1); IEEE mode: 1 annotator x 1 unit, <= 2 redraws",
                 thorough="3 annotators x <= 1 unit, 2 x <= 2, 1 x <= 3; measured mode on (2,2),(1,1,1) and ground-truth subsets; IEEE mode: 1 annotator x 2 units"),
-    outside="goodness of fit of the empirical distributions; numpy's generators; more than 3 units per annotator per draw; the gap statistic's exact "
-            "definition (the code's own: first-unit offsets included) is only checked for being what is passed to the RNG",
+    outside="goodness of fit of the empirical distributions; numpy's generators; more than 3 units per annotator per draw",
     stubs=["np.random.normal/choice = fresh symbolic draws, logged with their arguments", "np.std = fresh value >= 0 (argument list logged)",
            "int() = truncation toward zero", "redraw loops cut after a per-path draw budget (counted)"],
     assumptions=["reference units labelled and longer than SEGMENT_PRECISION"],
@@ -44,6 +43,8 @@ def configs(tier):
         out.append(dict(key=f"measured,ref={sizes},gt={gt}", mode="measured", sizes=list(sizes), gt=gt, maxu=1,
                         cost=50 * 9 ** (len(gt) if gt else len(sizes))))
     out.append(dict(key="measured,ref=(2, 1),gt=None,ties-on-start-allowed", mode="measured", sizes=[2, 1], gt=None, maxu=1, ties=True, cost=50 * 81))
+    # three units for one annotator (a unit nested in an earlier one, then a third: where "the previous unit" and "the latest end so far" differ)
+    out.append(dict(key="measured,ref=(3, 1),gt=None", mode="measured", sizes=[3, 1], gt=None, maxu=1, cost=50 * 81))
     # long redraw chains: one annotator, one unit, up to 24 consecutive duration draws that are too short
     out.append(dict(key="custom,annotators=1,weights,maxu=1,redraws<=24", mode="custom", nann=1, weights=True, maxu=1, maxredraw=24, cost=600))
     # the same sampler object initialised twice on the same continuum object (other ground truth, continuum changed in between)
@@ -249,6 +250,22 @@ def harness(cfg, ns):
         if E.get("measured"):
             obls.append(Obl("measured:avg_nb==mean-units-per-annotator", core.approx(s._avg_nb_units_per_annotator, P["avg_nb"]), rz))
             obls.append(Obl("measured:avg_dur==mean-duration", core.eq(s._avg_unit_duration, P["avg_dur"]), rz))
+            # the gap law: gaps between CONSECUTIVE units of an annotator (start minus the previous unit's end, nested or overlapping
+            # units give negative gaps), the offset of each annotator's first unit when positive, and one leading 0
+            per = {}
+            for (a, j), v in sorted(info.items()):
+                per.setdefault(a, []).append(v)
+            g_num, g_cnt = lift(0), z3.IntVal(1)
+            for a, us in per.items():
+                us = sorted(us, key=lambda v: 0) if False else us      # records are in the container's order
+                for prev_, nxt_ in zip(us, us[1:]):
+                    g_num = g_num + (lift(nxt_["start"]) - lift(prev_["end"]))
+                    g_cnt = g_cnt + 1
+                first = lift(us[0]["start"])
+                g_num = g_num + z3.If(first > 0, first, lift(0))
+                g_cnt = g_cnt + z3.If(first > 0, 1, 0)
+            obls.append(Obl("measured:avg_gap==mean(gaps between consecutive units, positive first offsets, a leading 0)",
+                            SymBool(lift(s._avg_gap) * z3.ToReal(g_cnt) == g_num), rz))
             std_args = [xs for xs, _ in ns.np.std_calls]
             obls.append(Obl("measured:std_dur==std(durations)", any(len(xs) == len(durs) and all(core.eq(x, d_).e is not None and
                             z3.is_true(z3.simplify(core.eq(x, d_).e)) for x, d_ in zip(xs, durs)) and sv is s._std_unit_duration for xs, sv in ns.np.std_calls), rz))
@@ -416,8 +433,17 @@ def replay(case):
         labs = [u.annotation for _, u in c]
         nbs = [len(c._annotations[a]) for a in c.annotators]
         # measured parameters, recomputed independently (the gap statistic is the code's own definition)
+        gaps = [0.0]
+        for a_ in c.annotators:
+            us_ = list(c._annotations[a_])
+            gaps += [n_.segment.start - p_.segment.end for p_, n_ in zip(us_, us_[1:])]
+            if us_ and us_[0].segment.start > 0:
+                gaps.append(us_[0].segment.start)
         P = dict(avg_nb=float(np.mean(nbs)), std_nb=float(np.std(nbs)), avg_dur=float(np.mean(durs)), std_dur=float(np.std(durs)),
-                 avg_gap=float(s._avg_gap), std_gap=float(s._std_gap))
+                 avg_gap=float(np.mean(gaps)), std_gap=float(np.std(gaps)))
+        if abs(float(s._avg_gap) - P["avg_gap"]) > 1e-9 * max(1.0, abs(P["avg_gap"])) or abs(float(s._std_gap) - P["std_gap"]) > 1e-9 * max(1.0, P["std_gap"]):
+            return dict(reproduced=True, detail=f"gap law measured as N({float(s._avg_gap)}, {float(s._std_gap)}), the gaps between consecutive units of the reference give "
+                                                f"N({P['avg_gap']}, {P['std_gap']})")
         weights = [labs.count(x) / len(labs) for x in cats]
     bad = []
     adds = []
